@@ -96,6 +96,7 @@ class Interp:
         self.loop_bound = loop_bound
         self.merge_depth = 0
         self.unwind = []       # unwinding assertions (z3 terms that must hold)
+        self.trace = []        # (name, value) of every assignment to a plain name, in execution order
 
     # ------------------------------------------------------------------ expressions
     def ev(self, n, env):
@@ -142,7 +143,11 @@ class Interp:
         raise Unsupported(ast.dump(n.op))
 
     def e_BinOp(self, n, env):
-        return BIN[type(n.op)](self.ev(n.left, env), self.ev(n.right, env))
+        a, b = self.ev(n.left, env), self.ev(n.right, env)
+        r = ctx.cur()
+        if r is not None and isinstance(n.op, (ast.Div, ast.Mod, ast.FloorDiv, ast.Pow)):
+            r.where = ast.unparse(n)[:70]
+        return BIN[type(n.op)](a, b)
 
     def e_Compare(self, n, env):
         left = self.ev(n.left, env)
@@ -232,8 +237,9 @@ class Interp:
                 kw.update(self.ev(k.value, env))
             else:
                 kw[k.arg] = self.ev(k.value, env)
-        if isinstance(f, _Closure):
-            return f(*args, **kw)
+        r = ctx.cur()
+        if r is not None and not isinstance(f, _Closure):
+            r.where = ast.unparse(n)[:70]
         return f(*args, **kw)
 
     def e_ListComp(self, n, env):
@@ -286,6 +292,7 @@ class Interp:
     def _bind(self, t, v, env):
         if isinstance(t, ast.Name):
             env[t.id] = v
+            self.trace.append((t.id, v))
         elif isinstance(t, (ast.Tuple, ast.List)):
             vals = list(v)
             if len(vals) != len(t.elts):
@@ -384,6 +391,7 @@ class Interp:
                 out[k] = UNDEF
             else:
                 out[k] = self._merge_val(ct, a, b, k)
+                self.trace.append((k, out[k]))
         return out
 
     def _merge_val(self, ct, a, b, name=""):
